@@ -104,7 +104,9 @@ def build_scn(sid, c, fault_lines, getter_fail=None, failrc=-1):
     for ln in fault_lines:
         s.add(ln)
     if getter_fail is not None:
-        s.add("OPT failrc=%d" % failrc)      # any non-zero return value is a failure (the core tests against 0)
+        # any non-zero return value is a failure (the core tests against 0); a failing getter may leave partial outputs
+        # behind (os/darwin stores the size before its allocation fails) and text getters may fill their whole window
+        s.add("OPT failrc=%d failstyle=%d sloppy=%d" % (failrc, 1 if (failrc > 0 or (getter_fail >> 3) % 2) else 0, 1 if (getter_fail >> 5) % 2 else 0))
         s.add("SET 0 fail=%d" % (getter_fail & 0xFFF))
         s.add("GSET fail=%d" % (getter_fail & 0xF000))
     for fr in c["request"]:
